@@ -446,7 +446,7 @@ func applyTargetForm(r *Reg, t string, f pool.Form) {
 func runC07(c *eng.Ctx) {
 	BuildDoors = true // Build / BuildWithContext / BuildWithOptions in turn (a function of the spec)
 	cr := &caseRunner{c: c, prop: "C07"}
-	defer func() { RunSameConstructor(c, "C07", cr.next); RunPartialOutputs(c, "C07", cr.next) }()
+	defer func() { RunSameConstructor(c, "C07", cr.next); RunPartialOutputs(c, "C07", cr.next); RunLateScopedGroupMember(c, cr.next) }()
 	lifes := allLifetimes
 	exec := func(idx int, s *Spec, m *Model, kind string, quiet bool) {
 		r := NewRun(s, m, nil, nil)
